@@ -103,7 +103,16 @@ MaxCases ==
      Mk("beyondentry", ListFn, BE16(65535) \o BE16(65534) \o c, <<>>, 0),
      Mk("beyondentry", ListFn, BE16(65535) \o BE16(65535) \o c, <<>>, 0),
      Mk("beyondentry", ListFn, BE16(65535) \o BE16(65535) \o c \o <<1, 2, 3>>, <<>>, 0) >>
-ASSUME TLCSet(1, LongTailCases \o MaxCases \o PairSweep \o ManyCases \o SigSweep \o SingleCases \o ListCases \o BeyondEntryCases \o BeyondListCases \o CutCases \o InnerCases)
+GridIdx == SetToSeq({<<e1, h, sg, n>> : e1 \in 0..4, h \in {0, 4}, sg \in {0, 1, 2, 3, 4, 5, 6, 9}, n \in {0, 1, 2, 3, 4, 5, 6, 7, 254, 255, 256, 257, 258}})
+GridCases ==
+  [q \in 1..Len(GridIdx) |->
+    LET ix == GridIdx[q]
+        s == [ver |-> 0, id |-> Id32(2), ts |-> Tss[2], ext |-> SubSeq(<<0, 0, 1, 0>>, 1, ix[1]), sig |-> Sig(<<ix[2], ix[3]>>, Fill(q, ix[4]))] IN
+    [kind |-> "grid", fn |-> IF q % 2 = 0 THEN OneFn ELSE ListFn,
+     bytes |-> IF q % 2 = 0 THEN EncSct(s) ELSE EncSctList(<<s>>), want |-> <<q>>, extra |-> 0]]
+GridSct(q) == LET ix == GridIdx[q] IN
+  [ver |-> 0, id |-> Id32(2), ts |-> Tss[2], ext |-> SubSeq(<<0, 0, 1, 0>>, 1, ix[1]), sig |-> Sig(<<ix[2], ix[3]>>, Fill(q, ix[4]))]
+ASSUME TLCSet(1, LongTailCases \o GridCases \o MaxCases \o PairSweep \o ManyCases \o SigSweep \o SingleCases \o ListCases \o BeyondEntryCases \o BeyondListCases \o CutCases \o InnerCases)
 Cases == TLCGet(1)
 N == Len(Cases)
 
@@ -134,6 +143,9 @@ SigLengthSweep ==
   LET c == Cases[i] IN
   c.kind = "sigsweep" => (cres.k = "ok" /\ cres.p = Len(c.bytes) - 1 /\ Len(cres.v.sig.data) = c.want[2]
                           /\ cres.v.sig.alg = Some([hash |-> SigPairs[c.want[1]][1], sign |-> SigPairs[c.want[1]][2]]))
+FieldsInOrder ==
+  LET c == Cases[i] IN
+  c.kind = "grid" => (cres.k = "ok" /\ cres.p = Len(c.bytes) /\ (IF c.fn = OneFn THEN cres.v ELSE cres.v[1]) = GridSct(c.want[1]))
 PairsAreOpaque ==
   LET c == Cases[i] IN
   c.kind = "pair" =>
@@ -146,7 +158,7 @@ IdIs32 == (Cases[i].kind = "single" /\ res.k = "ok") => res.v.id.l = 32
 
 Pin ==
   LET c == Cases[i] IN
-  IF c.kind \in {"list", "single", "innerpad", "many", "sigsweep", "pair"} THEN "full"
+  IF c.kind \in {"list", "single", "innerpad", "many", "sigsweep", "pair", "grid"} THEN "full"
   ELSE IF c.kind = "beyondentry" THEN "prefix_or_err"
   ELSE "novalue"
 EmitCase ==
